@@ -15,12 +15,13 @@ Init == /\ st = [defs |-> [n \in Names |-> IF n = "c" THEN "absent" ELSE "A"], r
 UsedReqs == UNION {{st.runs[n][i].req : i \in DOMAIN st.runs[n]} : n \in Names}
 \* environment: a run starts (its process serves the status), finishes, or is killed (history still says running)
 EnvStart(d, r) == /\ Exists(st, d) /\ ~Running(st, d) /\ r \notin UsedReqs /\ Len(st.runs[d]) < 2
-                  /\ st' = [st EXCEPT !.runs[d] = Append(@, [req |-> r, status |-> RUNNING, nodes |-> [s \in Steps |-> IF s = "s1" THEN "finished" ELSE "running"]]),
+                  /\ st' = [st EXCEPT !.runs[d] = Append(@, [req |-> r, status |-> RUNNING, nodes |-> NodesOf(st.defs[d], LAMBDA s : IF s = "s2" THEN "running" ELSE "finished")]),
                                       !.live[d] = r]
                   /\ ops' = Append(ops, [op |-> "env-start", d |-> d, req |-> r]) /\ lastViol' = {}
 EnvFinish(d, res) == /\ Running(st, d)
                      /\ LET i == Len(st.runs[d]) IN
-                        st' = [st EXCEPT !.runs[d][i].status = res, !.runs[d][i].nodes = [s \in Steps |-> IF res = FINISHED THEN "finished" ELSE IF s = "s1" THEN "finished" ELSE "failed"],
+                        st' = [st EXCEPT !.runs[d][i].status = res, !.runs[d][i].nodes = [s \in Steps |-> IF st.runs[d][i].nodes[s] = "absent" THEN "absent"
+                                                                               ELSE IF res = FINISHED \/ s # "s2" THEN "finished" ELSE "failed"],
                                          !.live[d] = "none"]
                      /\ ops' = Append(ops, [op |-> "env-finish", d |-> d, status |-> res]) /\ lastViol' = {}
 EnvCrash(d) == /\ Running(st, d) /\ st' = [st EXCEPT !.live[d] = "none"]
@@ -28,11 +29,11 @@ EnvCrash(d) == /\ Running(st, d) /\ st' = [st EXCEPT !.live[d] = "none"]
 Actions ==
   {[op |-> o, d |-> d, req |-> r, step |-> s, value |-> v, params |-> p]
      : o \in {"start", "stop", "retry", "suspend", "mark-success", "mark-failed", "save", "rename", "create", "delete", "explode"},
-       d \in Names \cup {"ghost"}, r \in Reqs \cup {"", "nope"}, s \in Steps \cup {"", "zz"}, v \in {"", "true", "A", "B", "bad", "E", "a", "c"}, p \in {"", "p1 X=2"}}
+       d \in Names \cup {"ghost"}, r \in Reqs \cup {"", "nope"}, s \in Steps \cup {"", "zz"}, v \in {"", "true", "A", "C", "bad", "E", "a", "c"}, p \in {"", "p1 X=2"}}
 \* keep the argument space small: arguments an action does not read are fixed to ""
 Relevant(a) == /\ (a.op \notin {"retry", "mark-success", "mark-failed"} => a.req = "")
                /\ (a.op \notin {"mark-success", "mark-failed"} => a.step = "")
-               /\ (a.op = "suspend" => a.value \in {"", "true"}) /\ (a.op = "save" => a.value \in {"A", "B", "bad", "E"})
+               /\ (a.op = "suspend" => a.value \in {"", "true"}) /\ (a.op = "save" => a.value \in {"A", "C", "bad", "E"})
                /\ (a.op = "rename" => a.value \in {"", "a", "c"}) /\ (a.op \notin {"suspend", "save", "rename"} => a.value = "")
                /\ (a.op # "start" => a.params = "") /\ (a.op = "create" => a.d \in Names)
 Api(a) == /\ Relevant(a)
